@@ -303,10 +303,21 @@ func c17GenMixed(r *Rng) c17Poly {
 		}
 	}
 	for i := range s.V {
-		if isArc[i] || isArc[(i+1)%n] || r.P(0.4) {
+		if isArc[i] || r.P(0.4) {
 			continue
 		}
 		a, b := pts[(i+n-1)%n], pts[(i+1)%n]
+		if j := (i + 1) % n; isArc[j] {
+			// the vertex where an arc segment starts: its outgoing edge is the first facet of that arc
+			if !s.Closed && j == 0 {
+				continue
+			}
+			if ap, _, ok := c17ArcPts(pts[i], pts[j], s.V[j].Radius, s.V[j].Facets); ok && len(ap) > 0 {
+				b = ap[0]
+			} else if !ok {
+				continue
+			}
+		}
 		lmin := math.Min(c17Dist(a, pts[i]), c17Dist(b, pts[i]))
 		d1 := lmin * r.R(0.03, 0.45)
 		if r.P(0.15) {
